@@ -71,6 +71,8 @@ pub struct SimOutput {
 
 pub enum Verdict {
     Completed(Box<SimOutput>),
+    /// a component simulation finished; its report is in `SimResult::custom`
+    CustomCompleted,
     /// No runnable task while some are unfinished (strict mode: nobody could ever wake them).
     Deadlock(String),
     /// The fair phase exhausted its budget: livelock / stall.
@@ -80,6 +82,7 @@ pub enum Verdict {
 }
 
 pub struct SimResult {
+    pub custom: Option<Box<dyn std::any::Any + Send>>,
     pub verdict: Verdict,
     pub sched: SchedOut,
     pub monitor: Monitor,
@@ -263,7 +266,10 @@ impl<T> Drop for CloseOnDrop<T> {
     }
 }
 
+pub type CustomBody = Arc<dyn Fn() -> Box<dyn std::any::Any + Send> + Send + Sync>;
+
 struct Job {
+    custom: Option<CustomBody>,
     scenario: Arc<Scenario>,
     sched: SchedSpec,
     replay: Option<Trace>,
@@ -290,6 +296,8 @@ thread_local! {
     static SLOT: RefCell<Option<SimOutput>> = const { RefCell::new(None) };
     static FINISH: RefCell<Option<(u64, u64, [u64; 16], Option<Vec<(u32, u32)>>)>> = const { RefCell::new(None) };
     static BODY_INPUT: RefCell<Option<(Arc<Scenario>, RunOptions, u32, u64)>> = const { RefCell::new(None) };
+    static CUSTOM_BODY: RefCell<Option<CustomBody>> = const { RefCell::new(None) };
+    static CUSTOM_OUT: RefCell<Option<Box<dyn std::any::Any + Send>>> = const { RefCell::new(None) };
     static ENGINE: RefCell<Option<CloseOnDrop<Job>>> = const { RefCell::new(None) };
 }
 
@@ -305,9 +313,11 @@ fn finalize(current: Current, failure: Option<String>) {
     let sched = std::mem::take(&mut *sched_out.borrow_mut());
     let finished = FINISH.with(|f| f.borrow_mut().take());
     let output = SLOT.with(|s| s.borrow_mut().take());
+    let custom = CUSTOM_OUT.with(|c| c.borrow_mut().take());
     let verdict = match failure {
         None => match output {
             Some(out) => Verdict::Completed(Box::new(out)),
+            None if custom.is_some() => Verdict::CustomCompleted,
             None => Verdict::HarnessError("execution ended without output".into()),
         },
         Some(msg) => {
@@ -321,7 +331,7 @@ fn finalize(current: Current, failure: Option<String>) {
         }
     };
     let (steps, trace_hash, fault_counts, log) = finished.unwrap_or((steps_now, hash_now, faults_now, log_now));
-    let _ = job.reply.send(SimResult { verdict, sched, monitor, steps, trace_hash, fault_counts, log });
+    let _ = job.reply.send(SimResult { custom, verdict, sched, monitor, steps, trace_hash, fault_counts, log });
     job.reply.close();
 }
 
@@ -365,6 +375,8 @@ impl shuttle_engine::scheduler::Scheduler for PullScheduler {
         BODY_INPUT.with(|b| {
             *b.borrow_mut() = Some((Arc::clone(&job.scenario), job.opts.clone(), job.sched.buggify, job.sched.seed))
         });
+        CUSTOM_BODY.with(|c| *c.borrow_mut() = job.custom.clone());
+        CUSTOM_OUT.with(|c| *c.borrow_mut() = None);
         st.current = Some(Current { job, sched_out, inner });
         schedule
     }
@@ -391,6 +403,14 @@ fn sim_body() {
     ahash::random_state::verif_reset_seed_counter(seed as usize | 1);
     foldhash::verif_reset_seed_counter(seed | 1);
     let _ = buggify;
+    if let Some(custom) = CUSTOM_BODY.with(|c| c.borrow_mut().take()) {
+        // component simulation: the body is a harness-supplied closure over production types
+        let out = custom();
+        FINISH.with(|f| *f.borrow_mut() = Some((rt::steps(), rt::trace_hash(), rt::fault_counts(), rt::take_log())));
+        rt::end_run();
+        CUSTOM_OUT.with(|c| *c.borrow_mut() = Some(out));
+        return;
+    }
     monitor::install(opts.expected_first.clone());
     let db = Arc::new(SimDb::from_scenario(&scenario, true, false));
     let precompile_log = Arc::new(PrecompileLog::default());
@@ -474,9 +494,19 @@ fn engine_thread_main(rx: Arc<Chan<Job>>, _guard: ()) {
 
 /// Run one scenario under the simulator. Never panics: every failure is turned into a verdict.
 pub fn run_sim(scenario: &Arc<Scenario>, sched: &SchedSpec, replay: Option<Trace>, opts: &RunOptions) -> SimResult {
+    run_sim_inner(None, scenario, sched, replay, opts)
+}
+
+/// Run a harness-supplied closure (a component driver over production types) as the main task.
+pub fn run_custom(body: CustomBody, sched: &SchedSpec, replay: Option<Trace>, record_trace: bool) -> SimResult {
+    let opts = RunOptions { record_trace, record_log: std::env::var_os("VERIF_LOG").is_some(), expected_first: None, expected_second: None };
+    run_sim_inner(Some(body), &Arc::new(crate::scenario::Scenario::empty()), sched, replay, &opts)
+}
+
+fn run_sim_inner(custom: Option<CustomBody>, scenario: &Arc<Scenario>, sched: &SchedSpec, replay: Option<Trace>, opts: &RunOptions) -> SimResult {
     crate::hook::ensure_installed();
     let reply: Arc<Chan<SimResult>> = Chan::new();
-    let mut job = Some(Job { scenario: Arc::clone(scenario), sched: sched.clone(), replay, opts: opts.clone(), reply: Arc::clone(&reply) });
+    let mut job = Some(Job { custom, scenario: Arc::clone(scenario), sched: sched.clone(), replay, opts: opts.clone(), reply: Arc::clone(&reply) });
     for _attempt in 0..2 {
         let sent = ENGINE.with(|e| {
             let mut e = e.borrow_mut();
@@ -514,6 +544,7 @@ pub fn run_sim(scenario: &Arc<Scenario>, sched: &SchedSpec, replay: Option<Trace
     match reply.recv() {
         Some(r) => r,
         None => SimResult {
+            custom: None,
             verdict: Verdict::HarnessError("engine thread died".into()),
             sched: SchedOut::default(),
             monitor: Monitor::default(),
